@@ -242,6 +242,9 @@ func readsOn(r *rand.Rand, g *keyGen, target string, full bool, ops *[][]string)
 
 func bookkeeping(r *rand.Rand, g *keyGen, t *track, ops *[][]string) {
 	*ops = append(*ops, []string{"avail"}, []string{"latest"}, []string{"wver"}, []string{"hash"})
+	if r.Intn(3) == 0 {
+		*ops = append(*ops, []string{"davail"})
+	}
 	hi := t.latest() + 1
 	lo := t.first() - 1
 	if lo < 0 {
